@@ -20,7 +20,7 @@ EXPLANATION = (
     "evaluated for both timer types), both in one record for self.ac_id."
 )
 ASSUMPTIONS = ["round() is Python's banker's rounding; ties are outside the decided clauses"]
-FLOORS = {"C11.R1": 12, "C11.R2": 8, "C11.R3": 18, "C11.R4": 6, "C11.R5": 8, "C11.R6": 1, "C11.R7": 1}
+FLOORS = {"C11.R1": 12, "C11.R2": 8, "C11.R3": 18, "C11.R4": 6, "C11.R5": 8, "C11.R6": 1, "C11.R7": 1, "C11.R8": 1}
 
 ZONES = ((AT4_API, "At4Zone"), (AT5_API, "At5Zone"))
 ACS = ((AT4_API, "At4AirConditioner"), (AT5_API, "At5AirConditioner"))
@@ -37,6 +37,10 @@ def run(ctx):
 
     from . import c07
 
+    from . import c02
+
+    reuse(ctx, "C11.R8", [c02.r5], "an accepted call is not silently dropped: commands are sent with a 30 s policy, never with the connected-only policy of the requests (C02.R5)",
+          keep=lambda o: "command-lifetime" in o.construct or o.verdict != "HOLDS")
     reuse(ctx, "C11.R7", [c07.r7], "a raising subscriber does not abort the loop over the records of a status frame, so the abilities/sensor flags the validity checks read are those of the latest frame for every entity (C07.R7)")
     reuse(ctx, "C11.R6", [c04.r5], "the rounded set-point reaches the wire unchanged: the set-point conversion is exact on the model's resolution grid (C04.R5)",
           keep=lambda o: "set_point" in o.construct or "setpoint" in o.construct.lower() or o.verdict != "HOLDS")
